@@ -317,6 +317,94 @@ impl Phase for Matrix {
 }
 
 /// random nested call chains `f g h x` / `f(g(h(x)))` over user functions and builtins
+/// Numeric types with the representation of the default ones: builtins are builtins for every numeric type, in whatever
+/// order the types are used in one process.
+#[derive(Debug, Clone, PartialEq)]
+pub struct TwinNumericTypes;
+
+impl evalexpr::EvalexprNumericTypes for TwinNumericTypes {
+    type Int = i64;
+    type Float = f64;
+    fn int_as_float(int: &Self::Int) -> Self::Float {
+        *int as f64
+    }
+    fn float_as_int(float: &Self::Float) -> Self::Int {
+        *float as i64
+    }
+}
+
+struct SecondNumericTypes;
+
+impl Phase for SecondNumericTypes {
+    fn name(&self) -> String {
+        "every builtin name under a second numeric type, before and after its use under the default one".into()
+    }
+    fn len(&self) -> u64 {
+        (BUILTINS.len() + OTHERS.len()) as u64 * 2
+    }
+    fn exhaustive(&self) -> bool {
+        true
+    }
+    fn run(&mut self, idx: u64, _r: &mut Rng, out: &mut Out) {
+        let k = (idx / 2) as usize;
+        let name = if k < BUILTINS.len() { BUILTINS[k] } else { OTHERS[k - BUILTINS.len()] };
+        let twin_first = idx % 2 == 1;
+        out.begin(|| format!("{} under two numeric types ({} first)", name, if twin_first { "second type" } else { "default" }));
+        let args = ["(1)", "(1, 2)", "(2.5)", "(\"ab\")", "(\"ab\", 1)", "((1, 2), 1)", "()", "(true, 1, 2)", " 3"];
+        for a in args {
+            let src = format!("{}{}", name, a);
+            let run_default = |on: bool| -> String {
+                match observe::guard(|| {
+                    if on {
+                        evalexpr::eval_with_context(&src, &evalexpr::HashMapContext::<DefaultNumericTypes>::new())
+                    } else {
+                        evalexpr::eval_with_context(&src, &EmptyContext::<DefaultNumericTypes>::default())
+                    }
+                }) {
+                    Ok(r) => format!("{:?}", r),
+                    Err(p) => format!("PANIC {}", api::panic_text(&p)),
+                }
+            };
+            let run_twin = |kind: usize| -> String {
+                match observe::guard(|| match kind {
+                    0 => evalexpr::eval_with_context(&src, &evalexpr::HashMapContext::<TwinNumericTypes>::new()),
+                    1 => evalexpr::eval_with_context(&src, &EmptyContextWithBuiltinFunctions::<TwinNumericTypes>::default()),
+                    _ => evalexpr::eval_with_context(&src, &EmptyContext::<TwinNumericTypes>::default()),
+                }) {
+                    Ok(r) => format!("{:?}", r),
+                    Err(p) => format!("PANIC {}", api::panic_text(&p)),
+                }
+            };
+            let (d_on, t_on, t_fixed, d_off, t_off);
+            if twin_first {
+                t_on = run_twin(0);
+                d_on = run_default(true);
+                t_off = run_twin(2);
+                d_off = run_default(false);
+                t_fixed = run_twin(1);
+            } else {
+                d_on = run_default(true);
+                t_on = run_twin(0);
+                t_fixed = run_twin(1);
+                d_off = run_default(false);
+                t_off = run_twin(2);
+            }
+            out.evals(5);
+            out.count("sources evaluated under both numeric types");
+            out.nontrivial(&src);
+            if d_on != t_on || d_on != t_fixed || d_off != t_off {
+                out.violation(
+                    "resolution/second-numeric-type",
+                    format!("{}   [HashMapContext / fixed contexts of a second numeric type (Int = i64, Float = f64), {} used first]", src, if twin_first { "the second type" } else { "the default type" }),
+                    format!("as under the default numeric types: builtins on {} ; off {}", d_on, d_off),
+                    format!("HashMapContext {} ; EmptyContextWithBuiltinFunctions {} ; EmptyContext {}", t_on, t_fixed, t_off),
+                );
+            }
+        }
+        out.sample(|| format!("{} resolves alike under both numeric types", name));
+    }
+}
+
 struct Chains {
     n: u64,
 }
@@ -390,6 +478,7 @@ pub fn phases(cfg: &Cfg) -> Vec<Box<dyn Phase>> {
             names,
             trees: std::collections::HashMap::new(),
         }),
+        Box::new(SecondNumericTypes),
         Box::new(Chains {
             n: cfg.n(200_000, 20_000_000),
         }),
